@@ -72,6 +72,8 @@ def draw_cfg(rng, *, jac_modes=("callable",), small=True, allow_scaler=True, all
         cfg["env_reuse_buf"] = True
     if rng.random() < 0.12:
         cfg["env_scribble"] = True
+    if rng.random() < 0.1:
+        cfg["env_fun_buffer"] = True
     if rng.random() < 0.2:
         cfg["bounds_style"] = "list_none"
     if allow_scaler and rng.random() < 0.25:
